@@ -254,3 +254,82 @@ fn c10_valve_challenge_then_silence_r1() {
     assert!(sent_is(0, &addr, &plain) && sent_is(1, &addr, &chal));
     assert!(sent_is(2, &addr, &plain) && sent_is(3, &addr, &chal));
 }
+
+/// Valve request unit: k timeouts, then a valid reply, with retry count r. The
+/// reply payload is symbolic (all 4-byte contents): if k <= r the unit sends
+/// k + 1 identical requests and returns exactly the payload it returns without
+/// faults; if k > r it gives up after r + 1 requests with a receive error.
+#[cfg(kani)]
+fn valve_timeouts_then_valid(r: usize, k: usize) {
+    use gamedig::protocols::valve::verif_unit as vu;
+    let addr = any_addr_v4();
+    let body: [u8; 4] = kani::any();
+    let mut i = 0;
+    while i < k {
+        world().push_timeout();
+        i += 1;
+    }
+    world().push_data(vec![0xFF, 0xFF, 0xFF, 0xFF, 0x44, body[0], body[1], body[2], body[3]]);
+    let res = vu::get_request_data(&addr, settings(r), &gamedig::protocols::valve::Engine::Source(None), 17, 0x55,
+                                   vec![0xFF, 0xFF, 0xFF, 0xFF]);
+    let plain = [0xFF, 0xFF, 0xFF, 0xFF, 0x55, 0xFF, 0xFF, 0xFF, 0xFF];
+    if k <= r {
+        match &res {
+            Ok(data) => assert!(bytes_eq(data, &body)),
+            Err(_) => assert!(false),
+        }
+        assert!(world().n_sends == k + 1);
+    } else {
+        assert!(kind_of(&res) == Some(K::PacketReceive));
+        assert!(world().n_sends == r + 1);
+    }
+    let mut a = 0;
+    while a < world().n_sends {
+        assert!(sent_is(a, &addr, &plain));
+        a += 1;
+    }
+    core::mem::forget(res);
+}
+
+macro_rules! c10_then_valid {
+    ($name:ident, $r:expr, $k:expr) => {
+        #[cfg(kani)]
+        #[kani::proof]
+        #[kani::unwind(12)]
+        #[kani::stub(alloc::fmt::format, stub_format)]
+        fn $name() { valve_timeouts_then_valid($r, $k) }
+    };
+}
+c10_then_valid!(c10_valve_valid_after_0_timeouts_r1, 1, 0);
+c10_then_valid!(c10_valve_valid_after_1_timeout_r1, 1, 1);
+c10_then_valid!(c10_valve_valid_after_2_timeouts_r2, 2, 2);
+c10_then_valid!(c10_valve_valid_after_2_timeouts_r1_gives_up, 1, 2);
+c10_then_valid!(c10_valve_valid_after_1_timeout_r0_gives_up, 0, 1);
+
+/// GameSpy 3 handshake + data unit with r = 1: the handshake of the first attempt
+/// is lost, the second attempt gets a challenge and a one-packet reply - the
+/// result is the fault-free one and exactly three datagrams are sent
+/// (handshake, handshake, data request).
+#[cfg(kani)]
+#[kani::proof]
+#[kani::unwind(30)]
+#[kani::stub(alloc::fmt::format, stub_format)]
+#[kani::stub(core::str::from_utf8, stub_from_utf8)]
+#[kani::stub(core::slice::memchr::memchr, stub_memchr)]
+fn c10_gs3_valid_after_lost_handshake_r1() {
+    let addr = any_addr_v4();
+    world().push_timeout();
+    world().push_data(vec![0x09, 0, 0, 0, 1, b'0', 0]);
+    let mut p = Enc::new();
+    p.u8(0).be32(1).cstr("splitnum").u8(0x80).u8(0);
+    p.cstr("hostname").cstr("Nm").u8(0);
+    world().push_data(p.v);
+    let r = gamedig::protocols::gamespy::three::verif_unit::get_server_packets(&addr, settings(1));
+    match &r {
+        Ok(packets) => assert!(packets.len() == 1),
+        Err(_) => assert!(false),
+    }
+    core::mem::forget(r);
+    assert!(world().n_sends == 3);
+    assert!(sent_is(0, &addr, REQ_GS3_HANDSHAKE) && sent_is(1, &addr, REQ_GS3_HANDSHAKE));
+}
